@@ -185,15 +185,248 @@ fn show_obs(obs: &Result<Vec<StepObs>, String>) -> String {
     }
 }
 
+// ------------------------------------------------------------------ oracle
+
+/// The property judged on what the scripted broker saw and on the target's own counters,
+/// without the Lean model. Unlisted kinds of violation are looked for first, so that a listed
+/// finding in the same case cannot hide them.
+fn oracle(case: &Case, obs: &Result<Vec<StepObs>, String>) -> String {
+    let Ok(obs) = obs else { return "fail mqtt-conn:panicked the run loop or the event-loop task panicked".into() };
+    // handed-in ledger
+    let mut handed: BTreeMap<u32, (String, bool)> = BTreeMap::new(); // id -> (topic, handed while the target was alive)
+    let mut alive = true;
+    for o in obs { for (id, topic, _) in &o.handed { handed.insert(*id, (topic.clone(), alive)); } alive = !o.finished; }
+    // broker-side ledger
+    let mut attempted: Vec<u32> = vec![];
+    let mut accepted: Vec<u32> = vec![];
+    let mut failed: Vec<u32> = vec![];
+    let mut pending: Option<(u32, u64, u64, u64)> = None; // id, start second, d, publish_max
+    let mut open: Option<(usize, String, u16, String, usize, Option<(String, String)>)> = None;
+    let mut reconfs = 0usize; // Reconfigure commands sent so far
+    let mut closed: Vec<usize> = vec![];
+    let mut backoff: Option<(usize, u64, u64, bool)> = None; // conn, second of the error, expected delay, a Reconfigure has been sent (it may be handled while a publish blocks the run loop or while the next connection has no client yet, so no sharper attribution is attempted)
+    let mut mode = PubMode::Accept;
+    let mut now = 0u64;
+    let mut opens = 0usize;
+    let mut stale = None; let mut cred = None;
+    for (k, (o, step)) in obs.iter().zip(&case.steps).enumerate() {
+        if let Step::Mode(m) = step { mode = *m; }
+        if let Step::Tick = step { now += 1; }
+        if let Step::In(v) = step { reconfs += v.iter().filter(|i| matches!(i, Inp::Reconf(_))).count(); }
+        let held = o.held.clone().unwrap();
+        let cmd_in_step = k > 0 && obs[k - 1].held.as_ref() != Some(&held) || k == 0 && held != probe_config(&case.cfgs[0]);
+        for s in &o.seen {
+            match s {
+                Seen::Open { conn, host, port, client_id, cap, credentials } => {
+                    if *conn != opens { return format!("fail mqtt-conn:connection-numbering step {k}"); }
+                    opens += 1;
+                    open = Some((*conn, host.clone(), *port, client_id.clone(), *cap, credentials.clone()));
+                    backoff = None;
+                }
+                Seen::PollEnter { conn } => {
+                    if let Some((c, t, d, changed)) = backoff { if c == *conn {
+                        if now != t + d && !cmd_in_step {
+                            if changed { stale.get_or_insert(format!("step {k}: connection {c} polled again {} s after the error, the configuration held says {d} s", now - t)); }
+                            else { return format!("fail mqtt-conn:backoff step {k}: connection {c} polled again {} s after the error, connect_retry_secs is {d}", now - t); }
+                        }
+                        backoff = None;
+                    } }
+                }
+                Seen::Polled { conn, ev } => {
+                    if closed.contains(conn) { return format!("fail mqtt-conn:event-loop-after-disconnect step {k}: connection {conn} still polls"); }
+                    if backoff.is_some() { return format!("fail mqtt-conn:backoff step {k}: connection {conn} polled during its back-off"); }
+                    if matches!(ev, BrokerEvent::Refuse | BrokerEvent::Drop) {
+                        backoff = Some((*conn, now, held.connect_retry_secs, reconfs > 0));
+                    }
+                }
+                Seen::Publish { conn, topic, payload, qos, retain, outcome } => {
+                    let Some(id) = msg_id(payload) else { return format!("fail mqtt-conn:unknown-payload step {k}") };
+                    let Some((want_topic, _)) = handed.get(&id) else { return format!("fail mqtt-conn:unknown-payload step {k}: message {id} was never handed in") };
+                    if attempted.contains(&id) { return format!("fail mqtt-conn:duplicate-publish step {k}: message {id} handed to a client twice"); }
+                    if attempted.last().is_some_and(|l| *l > id) { return format!("fail mqtt-conn:reordered step {k}: message {id} published after message {}", attempted.last().unwrap()); }
+                    attempted.push(id);
+                    if topic != want_topic { return format!("fail mqtt-conn:topic step {k}: message {id} on {topic}, the template held when it was handed in gives {want_topic}"); }
+                    if *qos as i32 != held.qos || *retain { return format!("fail mqtt-conn:qos step {k}: message {id} with qos {qos}, the configuration held says {}", held.qos); }
+                    if open.as_ref().map(|o| o.0) != Some(*conn) || closed.contains(conn) { return format!("fail mqtt-conn:publish-on-closed-connection step {k}: message {id} on connection {conn}"); }
+                    if pending.is_some() { return format!("fail mqtt-conn:publish-overlap step {k}: message {id} while another publish is pending"); }
+                    let want = match mode { PubMode::Accept => 0, PubMode::Fail => 1, PubMode::Slow(_) => 2 };
+                    if *outcome != want { return format!("fail mqtt-conn:harness step {k}: scripted mode not applied"); }
+                    match mode { PubMode::Accept => accepted.push(id), PubMode::Fail => failed.push(id), PubMode::Slow(d) => pending = Some((id, now, d, held.publish_max_secs)) }
+                }
+                Seen::PublishDone { payload, .. } | Seen::PublishCancelled { payload, .. } => {
+                    let done = matches!(s, Seen::PublishDone { .. });
+                    let id = msg_id(payload);
+                    let Some((pid, t, d, p)) = pending.take() else { return format!("fail mqtt-conn:publish-timeout step {k}: completion without a pending publish") };
+                    if id != Some(pid) { return format!("fail mqtt-conn:publish-timeout step {k}: completion of another message"); }
+                    let (want_done, want_at) = if d <= p { (true, t + d) } else { (false, t + p) };
+                    if done != want_done || now != want_at { return format!("fail mqtt-conn:publish-timeout step {k}: message {pid} (broker answers after {d} s, publish_max_secs {p}) {} after {} s", if done { "accepted" } else { "timed out" }, now - t); }
+                    if done { accepted.push(pid) } else { failed.push(pid) }
+                }
+                Seen::Disconnect { conn } => {
+                    if open.as_ref().map(|o| o.0) != Some(*conn) || closed.contains(conn) { return format!("fail mqtt-conn:publish-on-closed-connection step {k}: disconnect of connection {conn}"); }
+                    closed.push(*conn);
+                }
+            }
+        }
+        // the target's own counters against the broker's ledger
+        if o.counters.publish_errors != failed.len() { return format!("fail mqtt-conn:counter step {k}: {} publish errors counted, {} publishes failed", o.counters.publish_errors, failed.len()); }
+        if o.ok_total < accepted.len() { return format!("fail mqtt-conn:counter step {k}: {} publishes counted, {} accepted", o.ok_total, accepted.len()); }
+        // the connection in use is the one the held settings describe
+        if let (Some((c, host, port, cid, cap, creds)), false) = (&open, o.finished) { if !closed.contains(c) {
+            if (host, port, cid, *cap) != (&held.host, &held.port, &held.client_id, held.queue_size as usize) {
+                return format!("fail mqtt-conn:connection-settings step {k}: connection {c} is to {host}:{port} as {cid} (capacity {cap}), the configuration held says {}:{} as {} (capacity {})", held.host, held.port, held.client_id, held.queue_size);
+            }
+            let want = match (&held.username, &held.password) { (Some(u), Some(p)) => Some((u.clone(), p.clone())), _ => None };
+            if *creds != want { cred.get_or_insert(format!("step {k}: connection {c} uses credentials {creds:?}, the configuration held says {want:?}")); }
+        } }
+    }
+    // every message handed to the live target: accepted once, refused by the broker, pending, or still queued behind a pending publish
+    let last = obs.last().unwrap();
+    let voided = last.ok_total - accepted.len();
+    let not_attempted: Vec<u32> = handed.iter().filter(|(id, (_, alive))| *alive && !attempted.contains(id)).map(|(id, _)| *id).collect();
+    if not_attempted.len() < voided { return format!("fail mqtt-conn:counter {} publishes counted, {} accepted, only {} messages never reached a client", last.ok_total, accepted.len(), not_attempted.len()); }
+    let unexplained = not_attempted.len() - voided;
+    if !last.finished && pending.is_none() && unexplained > 0 { return format!("fail mqtt-conn:message-stuck {unexplained} message(s) neither published nor counted: {not_attempted:?}"); }
+    if voided > 0 { return format!("fail mqtt-out:lost-while-connecting {voided} message(s) counted as published were never handed to a client (taken from the queue while the new connection had no client yet); not published: {not_attempted:?}"); }
+    if last.finished && unexplained > 0 { return format!("fail mqtt-out:terminate-drops-queued {unexplained} message(s) handed in before the target stopped were never published: {not_attempted:?}"); }
+    if let Some(d) = stale { return format!("fail mqtt-out:reconfigure-retry-delay-stale {d}"); }
+    if let Some(d) = cred { return format!("fail mqtt-out:reconfigure-credentials-ignored {d}"); }
+    "ok".into()
+}
+
+fn nontrivial(obs: &Result<Vec<StepObs>, String>) -> bool {
+    let Ok(obs) = obs else { return false };
+    let all: Vec<&Seen> = obs.iter().flat_map(|o| o.seen.iter()).collect();
+    let ok = all.iter().filter(|s| matches!(s, Seen::Publish { outcome: 0, .. } | Seen::PublishDone { .. })).count();
+    let opens = all.iter().filter(|s| matches!(s, Seen::Open { .. })).count();
+    let bad = all.iter().any(|s| matches!(s, Seen::Publish { outcome: 1, .. } | Seen::PublishCancelled { .. } | Seen::Polled { ev: BrokerEvent::Refuse | BrokerEvent::Drop, .. }));
+    ok >= 2 && (opens >= 2 || bad)
+}
+
+// --------------------------------------------------------------- generator
+
+fn gen_case(rng: &mut Rng, long: bool) -> Case {
+    let base = Cfg { cid: 0, dest: 0, qs: 0, tmpl: rng.below(3) as u8, r: 1 + rng.below(3), p: 1 + rng.below(3), qos: rng.below(3) as u8, user: rng.below(3) as u8 };
+    let mut cfgs = vec![base];
+    for _ in 0..rng.below(4) {
+        let mut c = *rng.pick(&cfgs);
+        for _ in 0..1 + rng.below(2) {
+            match rng.below(9) { 0 => c.cid = rng.below(2) as u8, 1 => c.dest = rng.below(2) as u8, 2 => c.qs = rng.below(2) as u8, 3 => c.tmpl = rng.below(3) as u8,
+                4 | 5 => c.r = 1 + rng.below(3), 6 => c.p = 1 + rng.below(3), 7 => c.qos = rng.below(3) as u8, _ => c.user = rng.below(3) as u8 }
+        }
+        cfgs.push(c);
+    }
+    let burst = |rng: &mut Rng, n: u64, term_ok: bool, cfgs: &Vec<Cfg>| -> Step {
+        Step::In((0..n).map(|_| match rng.below(20) { 0..=13 => Inp::Msg(rng.below(3) as u8), 14..=18 => Inp::Reconf(rng.below(cfgs.len() as u64) as usize), _ => if term_ok { Inp::Term } else { Inp::Msg(0) } }).collect())
+    };
+    let n = if long { 10 + rng.below(30) } else { 3 + rng.below(16) };
+    let mut steps = vec![if rng.chance(3, 5) { Step::In(vec![]) } else { let k = 1 + rng.below(3); burst(rng, k, false, &cfgs) }];
+    for i in 0..n {
+        steps.push(match rng.below(20) {
+            0..=7 => { let k = 1 + rng.below(4); burst(rng, k, i + 4 >= n, &cfgs) }
+            8..=11 => Step::Ev(*rng.pick(&[BrokerEvent::Accept, BrokerEvent::Accept, BrokerEvent::Refuse, BrokerEvent::Drop, BrokerEvent::Drop, BrokerEvent::Other])),
+            12..=13 => Step::Mode(match rng.below(6) { 0 | 1 => PubMode::Accept, 2 => PubMode::Fail, _ => PubMode::Slow(1 + rng.below(4)) }),
+            _ => Step::Tick,
+        });
+    }
+    Case { cfgs, steps }
+}
+
+// -------------------------------------------------------------------- main
+
+/// Witnesses of the listed findings (also the Lean counterexamples), replayed first; the
+/// signature each one produces on this tree selects the model variant.
+const WITNESSES: &[(&str, &str, &str)] = &[
+    ("void", "mqtt-out:lost-while-connecting", "0.0.0.0.1.1.1.0;1.0.0.0.1.1.1.0|I;Ea;Im0,r1,m1;Ea;Im2"),
+    ("void", "mqtt-out:lost-while-connecting", "0.0.0.0.1.1.1.0|Im0,m1;Ea;Im2"),
+    ("retry", "mqtt-out:reconfigure-retry-delay-stale", "0.0.0.0.1.1.1.0;0.0.0.0.3.1.1.0|I;Ea;Ir1;Ed;T;T;T;Ea"),
+    ("cred", "mqtt-out:reconfigure-credentials-ignored", "0.0.0.0.1.1.1.0;0.0.0.0.1.1.1.2|I;Ea;Ir1;Im0"),
+    ("term", "mqtt-out:terminate-drops-queued", "0.0.0.0.1.1.1.0|I;Ea;Im0,x"),
+];
+
+fn record(rec: &mut Recorder, case: &Case) -> String {
+    let obs = run_case(case);
+    let orc = oracle(case, &obs);
+    if let Ok(o) = &obs {
+        for s in o.iter().flat_map(|o| o.seen.iter()) {
+            rec.bump(match s {
+                Seen::Open { .. } => "seen.open", Seen::PollEnter { .. } => "seen.poll-enter",
+                Seen::Polled { ev: BrokerEvent::Accept, .. } => "seen.connack-success", Seen::Polled { ev: BrokerEvent::Refuse, .. } => "seen.connack-refused",
+                Seen::Polled { ev: BrokerEvent::Drop, .. } => "seen.connection-error", Seen::Polled { .. } => "seen.other-packet",
+                Seen::Publish { outcome: 0, .. } => "seen.publish-accepted", Seen::Publish { outcome: 1, .. } => "seen.publish-client-error", Seen::Publish { .. } => "seen.publish-slow",
+                Seen::PublishDone { .. } => "seen.slow-publish-accepted", Seen::PublishCancelled { .. } => "seen.slow-publish-timed-out", Seen::Disconnect { .. } => "seen.disconnect",
+            });
+        }
+        if o.last().is_some_and(|l| l.finished) { rec.bump("case.terminated"); }
+        let l = o.last().unwrap();
+        let acc = o.iter().flat_map(|o| o.seen.iter()).filter(|s| matches!(s, Seen::Publish { outcome: 0, .. } | Seen::PublishDone { .. })).count();
+        rec.bump_by("ledger.handed", o.iter().map(|o| o.handed.len() as u64).sum());
+        rec.bump_by("ledger.accepted", acc as u64);
+        rec.bump_by("ledger.counted-published-without-client", (l.ok_total.saturating_sub(acc)) as u64);
+    }
+    for s in &case.steps { rec.bump(match s { Step::In(v) if v.is_empty() => "step.empty-burst", Step::In(_) => "step.burst", Step::Ev(_) => "step.broker-event", Step::Mode(_) => "step.publish-mode", Step::Tick => "step.tick" });
+        if let Step::In(v) = s { for i in v { rec.bump(match i { Inp::Msg(_) => "input.message", Inp::Reconf(_) => "input.reconfigure", Inp::Term => "input.terminate" }); } } }
+    rec.bump(&format!("oracle.{}", orc.split(' ').take(2).collect::<Vec<_>>().join(" ")));
+    let nt = nontrivial(&obs);
+    rec.case(show_case(case), show_obs(&obs), orc.clone(), nt);
+    orc
+}
+
 fn main() {
     let args = parse_args();
     std::panic::set_hook(Box::new(|_| {}));
     if args.rest.iter().any(|a| a == "--explore") {
         for c in args.rest.iter().filter(|a| a.contains('|')) {
             let case = parse_case(c);
-            println!("{}\n  => {}", show_case(&case), show_obs(&run_case(&case)).replace(" ; ", "\n     "));
+            let obs = run_case(&case);
+            println!("{}\n  => {}\n  oracle: {}", show_case(&case), show_obs(&obs).replace(" ; ", "\n     "), oracle(&case, &obs));
         }
         return;
     }
-    let _ = (Instant::now(), BTreeMap::<u8, u8>::new(), Rng::new(args.seed), replay_cases, Recorder::new(""));
+    let t0 = Instant::now();
+    let mut rec = Recorder::new("a table of 1-5 configurations (client id, destination, queue size, topic template, connect_retry_secs 1-3, publish_max_secs 1-3, qos, credentials) and a script of 4-40 steps: bursts of 0-4 target inputs (messages on 3 topics through the real direct_update, Reconfigure, Terminate) delivered back to back, broker events (ConnAck success / refusal, connection error, other packet), publish behaviour (accept, client error, answer after 1-4 s), seconds passing; the first burst is delivered before the target task first runs. non-trivial = at least two messages accepted by a client and (a second connection opened, or a failed / timed-out publish, or a connection error with back-off); distinct = distinct case lines");
+    if let Some(path) = &args.replay {
+        for c in replay_cases(path) { record(&mut rec, &parse_case(&c)); }
+        rec.finish(&args, t0.elapsed().as_secs_f64());
+        return;
+    }
+    // witnesses first: they select the variants
+    let mut variants: BTreeMap<&str, bool> = BTreeMap::new();
+    for (site, sig, c) in WITNESSES {
+        let orc = record(&mut rec, &parse_case(c));
+        let hit = orc.starts_with(&format!("fail {sig}"));
+        let e = variants.entry(site).or_insert(false);
+        *e = *e || hit;
+    }
+    for (site, hit) in &variants { rec.variant(site, if *hit { "as-written" } else { "repaired" }); }
+    // generated scripts, on a few threads (the scripted broker is per thread, the runtime per case)
+    let threads = 4u64;
+    let per = if args.thorough { 120000 } else { 6000 };
+    let seed = args.seed;
+    let handles: Vec<_> = (0..threads).map(|t| std::thread::spawn(move || {
+        let mut rng = Rng::new(seed.wrapping_mul(1000003).wrapping_add(t));
+        let mut r = Recorder::new("");
+        for i in 0..per { let case = gen_case(&mut rng, i % 5 == 0); record(&mut r, &case); }
+        r
+    })).collect();
+    for h in handles {
+        let r = h.join().unwrap();
+        for ((c, i), o) in r.cases.iter().zip(&r.impls).zip(&r.oracles) {
+            let case = parse_case(c);
+            let nt = nontrivial_from_line(i);
+            let _ = &case;
+            rec.case(c.clone(), i.clone(), o.clone(), nt);
+        }
+        for (k, v) in &r.dist { rec.bump_by(k, *v); }
+    }
+    rec.finish(&args, t0.elapsed().as_secs_f64());
+}
+
+/// The non-triviality rule evaluated on an observation line (used when merging thread results).
+fn nontrivial_from_line(line: &str) -> bool {
+    let toks: Vec<&str> = line.split(' ').collect();
+    let ok = toks.iter().filter(|t| (t.starts_with('p') && t.ends_with('+')) || (t.starts_with('d') && t[1..].parse::<u32>().is_ok())).count();
+    let opens = toks.iter().filter(|t| t.starts_with('o') && t.contains(':')).count();
+    let bad = toks.iter().any(|t| (t.starts_with('p') && t.ends_with('!')) || (t.starts_with('c') && t[1..].parse::<u32>().is_ok()) || ((t.starts_with('r') || t.starts_with('e')) && t[1..].parse::<u32>().is_ok()));
+    ok >= 2 && (opens >= 2 || bad)
 }
